@@ -553,6 +553,20 @@ impl RaAdvService {
     }
 }
 
+/// Verification hook: the pure advertisement builder.  The interface configuration type lives
+/// in a crate-private module; callers obtain references to it from Config::ra.interfaces.
+#[cfg(feature = "verif-hooks")]
+pub fn verif_build_announcement(
+    config: &crate::config::Config,
+    intf: &config::Interface,
+    ll: Option<[u8; 6]>,
+    mtu: Option<u32>,
+    self6: std::net::Ipv6Addr,
+    lifetime: std::time::Duration,
+) -> icmppkt::RtrAdvertisement {
+    RaAdvService::build_announcement_pure(config, intf, ll, mtu, self6, lifetime)
+}
+
 #[cfg(test)]
 use crate::config::ConfigValue;
 
